@@ -683,16 +683,33 @@ class CiderNumIntMixin:
         self.sdmxgen = None
         self.nldfgen = None
 
+    _mol_data = None
+
+    def _mol_changed(self, mol):
+        """
+        True if mol is not the molecule for which the feature generators
+        were set up. Mole objects are often modified in place (set_geom_,
+        new basis + build), so comparing the objects is not sufficient.
+        """
+        if self.mol is not mol or self._mol_data is None:
+            return True
+        new_data = (mol._atm, mol._bas, mol._env)
+        for old, new in zip(self._mol_data, new_data):
+            if not np.array_equal(old, new):
+                return True
+        return False
+
     def initialize_feature_generators(self, mol, grids, nspin):
         self.sl_plan = SemilocalPlan(self.settings.sl_settings, nspin)
         self.fl_plan = FracLaplPlan(self.settings.nlof_settings, nspin)
         cond = self.sdmxgen is None
-        cond = cond or self.mol != mol
+        cond = cond or self._mol_changed(mol)
         cond = cond or self.sdmxgen.plan.nspin != nspin
         cond = cond and self.settings.has_sdmx
         if cond:
             self.sdmxgen = self.sdmx_init.initialize_sdmx_generator(mol, nspin)
         self.mol = mol
+        self._mol_data = (mol._atm.copy(), mol._bas.copy(), mol._env.copy())
 
     def eval_xc_cider(
         self,
@@ -1086,6 +1103,33 @@ class _NLDFMixin:
     nr_rks = nr_rks_nldf
     nr_uks = nr_uks_nldf
 
+    grids = None
+    _grids_data = None
+
+    def _nldfgen_is_stale(self, mol, grids, nspin):
+        """
+        The NLDF generator stores the grids indexer, the grid coordinates,
+        and the atomic basis. Grids objects are usually rebuilt in place
+        (grids.build() creates a new indexer and new coordinate arrays), so
+        the generator must be tied to these rather than to the Grids object.
+        """
+        if self.nldfgen is None or self.grids is not grids:
+            return True
+        if self._grids_data is None:
+            return True
+        indexer, coords = self._grids_data
+        if indexer is not grids.grids_indexer or coords is not grids.coords:
+            return True
+        return self._mol_changed(mol) or self.nldfgen.plan.nspin != nspin
+
+    def _initialize_nldf_generator(self, mol, grids, nspin):
+        if self._nldfgen_is_stale(mol, grids, nspin):
+            self.nldfgen = self.nldf_init.initialize_nldf_generator(
+                mol, grids.grids_indexer, nspin
+            )
+            self.nldfgen.interpolator.set_coords(grids.coords)
+        self._grids_data = (grids.grids_indexer, grids.coords)
+
     def extra_block_loop(
         self,
         mol,
@@ -1137,15 +1181,7 @@ class NLDFNumInt(_NLDFMixin, CiderNumInt):
     grids = None
 
     def initialize_feature_generators(self, mol, grids, nspin):
-        cond = self.nldfgen is None
-        cond = cond or self.grids != grids
-        cond = cond or self.mol != mol
-        cond = cond or self.nldfgen.plan.nspin != nspin
-        if cond:
-            self.nldfgen = self.nldf_init.initialize_nldf_generator(
-                mol, grids.grids_indexer, nspin
-            )
-            self.nldfgen.interpolator.set_coords(grids.coords)
+        self._initialize_nldf_generator(mol, grids, nspin)
         super().initialize_feature_generators(mol, grids, nspin)
         self.grids = grids
 
@@ -1155,14 +1191,6 @@ class NLDFNLOFNumInt(_NLDFMixin, _FLNumIntMixin, CiderNumInt):
     grids = None
 
     def initialize_feature_generators(self, mol, grids, nspin):
-        cond = self.nldfgen is None
-        cond = cond or self.grids != grids
-        cond = cond or self.mol != mol
-        cond = cond or self.nldfgen.plan.nspin != nspin
-        if cond:
-            self.nldfgen = self.nldf_init.initialize_nldf_generator(
-                mol, grids.grids_indexer, nspin
-            )
-            self.nldfgen.interpolator.set_coords(grids.coords)
+        self._initialize_nldf_generator(mol, grids, nspin)
         super().initialize_feature_generators(mol, grids, nspin)
         self.grids = grids
